@@ -1659,24 +1659,34 @@ def load_registry(exclude=None):
     return reg
 
 
+def _write_if_changed(path, text):
+    if os.path.exists(path) and open(path).read() == text:
+        return
+    with open(path, "w") as f:
+        f.write(text)
+
+
 def generate(unit_spec, workdir):
-    """Translate one unit; writes coq/Gen/Gen_<unit>.v and Gen_<unit>.meta.json.  Raises Unsupported."""
+    """Translate one unit; writes coq/Gen/Gen_<unit>.v and Gen_<unit>.meta.json (left untouched when the
+    content is unchanged, so that `make` stays incremental; removed when the translation fails).
+    Raises Unsupported."""
     os.makedirs(GEN, exist_ok=True)
     vpath = os.path.join(GEN, "Gen_%s.v" % unit_spec["name"])
     mpath = os.path.join(GEN, "Gen_%s.meta.json" % unit_spec["name"])
-    for p in (vpath, mpath):
-        if os.path.exists(p):
-            os.remove(p)
-    u = Unit(unit_spec, load_registry(unit_spec["name"]))
-    for r in u.requires:
-        if not os.path.exists(os.path.join(GEN, "Gen_%s.meta.json" % r)):
-            raise Unsupported("unit '%s' requires unit '%s' which has not been generated" % (u.name, r))
-    u.load(workdir)
-    text = u.emit()
-    with open(vpath, "w") as f:
-        f.write(text + "\n")
-    with open(mpath, "w") as f:
-        json.dump(u.meta(), f, indent=1)
+    try:
+        u = Unit(unit_spec, load_registry(unit_spec["name"]))
+        for r in u.requires:
+            if not os.path.exists(os.path.join(GEN, "Gen_%s.meta.json" % r)):
+                raise Unsupported("unit '%s' requires unit '%s' which has not been generated" % (u.name, r))
+        u.load(workdir)
+        text = u.emit()
+    except Exception:
+        for p in (vpath, mpath, vpath + "o", vpath + "os", vpath + "ok"):
+            if os.path.exists(p):
+                os.remove(p)
+        raise
+    _write_if_changed(vpath, text + "\n")
+    _write_if_changed(mpath, json.dumps(u.meta(), indent=1))
     return u
 
 
